@@ -411,3 +411,52 @@ def aimed_specs(tier):
                             'log': False, 'label': f'aimed/{b}'})
                         k += 1
     return out
+
+
+def fixed_specs():
+    """deterministic cases for every rejection reason and for "nothing to do" (both tiers)"""
+    out = []
+    k = 0
+    for species in ('mouse', 'human'):
+        t = TABLES[species]
+        sym = SYM[species][3]
+        sym2 = SYM[species][40]
+        ens = ENS_KNOWN[species][5]
+        if t[sym] == ens or t[sym2] == ens or t[sym] == t[sym2]:
+            raise RuntimeError('fixed_specs: pick other names')
+        rnd = f'{ENS_PREFIX[species]}99999999999'
+        alias = list(ALIAS[species][0])
+        plans = {
+            'dup_cell': ([sym, ens], ['c0', 'c1', 'c0']),
+            'dup_gene': ([sym, ens, sym], None),
+            'dup_gene_ens': ([ens, sym, ens], None),
+            'empty_gene': ([sym, '', ens], None),
+            'collide_version': ([ens, sym, ens + '.3'], None),
+            'collide_two_versions': ([rnd + '.1', sym, rnd + '.2'], None),
+            'collide_sym_ens': ([t[sym], sym2, sym], None),
+            'collide_alias': ([alias[0], ens, alias[1]] if t[alias[0]] != ens else alias, None),
+        }
+        for name, (genes, cells) in plans.items():
+            for mapper in ('given', 'inferred', 'from_species'):
+                cells_ = cells or ['c0', 'c1']
+                out.append({
+                    'species': species, 'mapper': mapper, 'genes': genes, 'cells': cells_,
+                    'x': {'dtype': ['float32', 'int32', 'float64'][k % 3], 'family': 'fraction', 'seed': k, 'max': 100,
+                          'density': 1.0, 'neg': False, 'spikes': []},
+                    'enc': ['csr', 'csc', 'dense'][k % 3], 'layer': [None, 'counts'][k % 2], 'layout': 'default',
+                    'round': bool(k % 4), 'out': ['path', 'dir'][k % 2], 'tmp': bool(k % 3), 'expected_max': 20,
+                    'log': k % 5 == 0, 'label': f'fixed/{name}'})
+                k += 1
+        # nothing to do: Ensembl ids without version, data in X, no rounding needed (or not requested)
+        for enc in ('csr', 'csc', 'dense'):
+            for xkind, rnd_flag in (('int', True), ('int_float', True), ('fraction', False)):
+                x = {'dtype': 'uint16' if xkind == 'int' else 'float32', 'family': 'fraction' if xkind == 'fraction' else 'int_valued',
+                     'seed': k, 'max': 300, 'density': 0.8, 'neg': False, 'spikes': [[0, 0, 255.0]]}
+                out.append({
+                    'species': species, 'mapper': ['given', 'inferred', 'from_species'][k % 3], 'genes': [ens, rnd, ENS_KNOWN[species][9]],
+                    'cells': ['c0', 'c1', 'c2'], 'x': x, 'enc': enc, 'layer': None,
+                    'layout': 'default' if k % 2 else ([2, 2] if enc == 'dense' else 2),
+                    'round': rnd_flag, 'out': ['path', 'dir'][k % 2], 'tmp': bool(k % 3), 'expected_max': [20, None][k % 2],
+                    'log': False, 'label': 'fixed/nothing_to_do'})
+                k += 1
+    return out
